@@ -126,6 +126,16 @@ def rrun (auth : Bool) (modes : Nat → Mode) : RState → List (Nat × REv) →
         conns := fun c => if c = cid then r.1 else σ.conns c }
     (cid, r.2) :: rrun auth modes σ' rest
 
+/-- the same with `upstream_auth` changed at runtime -/
+def rrunVar (modes : Nat → Mode) : RState → List (Nat × Bool × REv) → List (Nat × ROut)
+  | _, [] => []
+  | σ, (cid, auth, e) :: rest =>
+    let r := rstep auth (modes cid) (σ.tunneled.contains cid) (σ.conns cid) e
+    let σ' : RState :=
+      { tunneled := if r.2.kind = .tunnel then cid :: σ.tunneled else σ.tunneled,
+        conns := fun c => if c = cid then r.1 else σ.conns c }
+    (cid, r.2) :: rrunVar modes σ' rest
+
 /-- who reads a write on connection `c`: the upstream proxy, the origin behind a tunnel, or the addressed server itself -/
 def partyOf (m : Mode) (c : UpConn) (w : RWrite) : Dest :=
   if c.via then (if c.sendConnect && w.form == .request then .originViaTunnel else .proxy)
